@@ -163,14 +163,40 @@ PROPS = {
                      "of bit arrays: list or 1-D int array of 0/1 (numpy int64 treated as mathematical integers).",
                 technique="Horner-loop invariants + round-trip harness lemmas, VCs discharged by z3"),
     "C18": dict(title="Shuffle tables are reproducible per-vertex permutations", level="other", bounded=["C18"], design="8/C18",
-                explanation="create_random_shuffles and the induced digit map.",
+                proof=["dsw.spiderweb.create_random_shuffles#seed", "dsw.spiderweb.create_random_shuffles#noseed", "lemma.digit_bijection",
+                       "lemma.digit_bijection_table", "lemma.arc_bijection", "lemma.arc_bijection_table", "dsw.spiderweb.decode#normal-table",
+                       "lemma.ipow_mono", "frame:dsw.spiderweb.create_random_shuffles"],
+                explanation="PROVED: (a) for EVERY permutation row and EVERY live-arc pattern (symbolic rows, not an enumeration) the digit -> live-arc map is "
+                            "a bijection (digit_of_arc(arc_of_digit(d)) = d, arc_of_digit(digit_of_arc(j)) = j, selected arc is live), with and without a table; "
+                            "decode with a table raises exactly on non-walks (the raise condition does not mention the table), so shuffling never changes "
+                            "which strands are walks; (b) on the real create_random_shuffles: shape (4^k, 4), every row a permutation of 0..3 (view "
+                            "semantics of card = shuffles[index]; random.shuffle permutes in place), and - with numpy's global generator modelled as a "
+                            "deterministic state machine (seed fixes the state, each shuffle is a function of state and row) - row i is the (i+1)-th "
+                            "shuffle after seed(seed), i.e. the table is a function of (observed_length, seed) only; static frame: no argument "
+                            "is written, only the global generator is touched.  ASSUMED: that numpy's generator is such a state machine.",
+                demoted=["numpy's seeded generator is deterministic - assumed (external), spot-checked bounded B2"],
+                claim="Deductive for the bijection lemma and the table contract, under the stated assumption about numpy.random.",
+                note="Trusted: numpy zeros / column assignment / row views / random.seed / random.shuffle contracts.",
                 technique="finite digit-map bijection lemma + permutation-row loop invariant; seeded determinism assumed, bounded spot check",
                 assumptions=["numpy's seeded global generator is deterministic (external)"]),
     "C19": dict(title="Arc removal keeps both graph views in step", level="other", bounded=["C19"], design="8/C19",
                 explanation="remove_nasty_arc per-call contract.",
                 technique="per-call contract with representation invariant consistent(accessor, latter_map) + bounded removal sequences"),
     "C20": dict(title="Library calls are stateless and never modify their arguments", level="other", bounded=["C20"], design="8/C20",
-                explanation="Frame / purity / verbose non-interference.",
+                proof=["frame:*", "dsw.spiderweb.create_random_shuffles#seed", "lemma.ipow_mono"],
+                explanation="STATIC FRAME PROOF over the real ASTs of EVERY function of dsw/operation.py, graphized.py, spiderweb.py (flow-sensitive may-alias "
+                            "analysis, numpy views vs copies): (1) every store (item / augmented / del / append / insert / shuffle / attribute) targets an object "
+                            "allocated in the current call - never a parameter or a view of one (arc removal excepted for its two documented in-place "
+                            "parameters); (2) no global / nonlocal, no read of module-level mutable state, no caching decorator, the global generator is "
+                            "used only by the two randomised calls - so each call is a function of its arguments (and the generator state); (3) every "
+                            "block guarded by `verbose` consists of print / monitor expression statements only: it binds nothing and cannot leave, so "
+                            "turning progress output on cannot change a result.  In addition the contracts of the functions proved under C01..C18 "
+                            "carry the frame obligation for each of their stores, and create_random_shuffles is proved to depend on (length, seed) "
+                            "only.  BOUNDED: that verbose output never RAISES and the fresh-process comparison (snapshot histories, B2).",
+                demoted=["verbose output never raises - bounded B2", "fresh-process equality - bounded B2 (follows from (1)+(2) for the modelled sources of state)"],
+                claim="Static (all inputs, all interleavings) for the frame / purity / verbose-shape obligations; bounded for the two clauses above.",
+                note="Trusted: the view-versus-copy table in pyvc/frame.py (basic indexing, .T, reshape, row iteration are views; fancy / boolean-mask "
+                     "indexing, .tolist(), list(), array(), arithmetic and every call result are copies); Monitor instances are call-local.",
                 technique="static frame (modifies-nothing) obligations over every store in the public functions + bounded snapshot histories"),
 }
 
